@@ -257,6 +257,10 @@ def run_library(spec, acc, api, con):
             lib_case(fname, [x if callable(x) else copy.deepcopy(x) for x in args], True, acc, api, con, spy)
 
 
+DOCUMENTED_FAILURE = {'arrayIndexOf': -1, 'arrayLastIndexOf': -1, 'arrayLength': 0, 'objectHas': False, 'stringIndexOf': -1,
+                      'stringLastIndexOf': -1, 'stringLength': 0, 'objectGet': None}
+
+
 def lib_case(fname, args, debug, acc, api, con, spy):
     bare_script, lib, rt_err, p_err, _, vae = api
     names = [f'a{k}' for k in range(len(args))]
@@ -317,6 +321,14 @@ def lib_case(fname, args, debug, acc, api, con, spy):
         acc.violation('library-failure-stopped-run', f'{fname}({args!r:.300}) raised {top["raised"]}; run status {status}', case)
         return
     expected = top['return_value'] if top['raised'] == 'ValueArgsError' else None
+    if top['raised'] == 'ValueArgsError' and fname in DOCUMENTED_FAILURE:
+        # the documented failure value comes from the library documentation, not from the exception object
+        documented = DOCUMENTED_FAILURE[fname]
+        if fname == 'objectGet':
+            documented = args[2] if len(args) >= 3 else None
+        if not refval.veq(expected, documented):
+            acc.violation('documented-failure-value', f'{fname}({args!r:.300}) failed validation with return value {expected!r}, documented {documented!r}', case)
+            return
     if not refval.veq(g.get('rr'), expected) or ('rr' not in g):
         acc.violation('failure-value', f'{fname}({args!r:.300}) raised {top["raised"]}: result {g.get("rr")!r:.200}, documented failure value {expected!r}', case)
     if debug and len(fail_lines) != 1:
